@@ -39,6 +39,9 @@ type fctx struct {
 	// body (0: the top-level statement list).
 	depth   int
 	inDefer bool
+	// published: local variables whose value was stored into a guarded field
+	// under a hold (seq) of its guard.
+	published map[types.Object]pubInfo
 	// taint: local variables holding a value obtained under a lock that is
 	// (possibly) no longer held; ctaCands: conditions on such values so far.
 	taint    map[types.Object][]ctaSrc
@@ -69,6 +72,7 @@ func (a *analysis) newCtx(fi *funcInfo, name string, pkg *packages.Package) *fct
 		aliases: map[types.Object]*pathRef{}, fresh: map[types.Object]bool{}, multi: map[types.Object]int{},
 		lits: map[types.Object]*ast.FuncLit{}, dbOwner: map[types.Object]string{}, txClass: map[types.Object]int{},
 		boltRows: map[int]*acqSite{}, drained: map[types.Object][]int{}, taint: map[types.Object][]ctaSrc{},
+		published: map[types.Object]pubInfo{},
 	}
 }
 
@@ -555,6 +559,9 @@ func (c *fctx) assign(s *ast.AssignStmt) {
 			continue
 		}
 		c.lhs(l)
+		if len(s.Lhs) == len(s.Rhs) {
+			c.notePublish(l, s.Rhs[i])
+		}
 	}
 }
 
@@ -720,6 +727,9 @@ func (c *fctx) runLit(fl *ast.FuncLit, outer []heldLock, may map[int]bool, top b
 	for k, v := range c.dbOwner {
 		sub.dbOwner[k] = v
 	}
+	for k, v := range c.published {
+		sub.published[k] = v
+	}
 	for k, v := range c.txClass {
 		sub.txClass[k] = v
 	}
@@ -731,6 +741,11 @@ func (c *fctx) runLit(fl *ast.FuncLit, outer []heldLock, may map[int]bool, top b
 		sub.checkLeak(fl.Body.Rbrace)
 	}
 	c.nlit = sub.nlit
+	if !sub.detached {
+		for k, v := range sub.published {
+			c.published[k] = v
+		}
+	}
 	// lock classes the literal may acquire count as acquired by the encloser
 	// only when it runs synchronously; the caller of runLit decides by passing
 	// its own may set.
@@ -1128,6 +1143,7 @@ func (c *fctx) lhs(e ast.Expr) {
 
 		return
 	}
+	c.writeThroughPublished(e)
 	pr := c.resolve(e)
 	if pr == nil {
 		c.expr(e)
@@ -2267,4 +2283,90 @@ func (c *fctx) ctaAct(class int, callee *types.Func, p token.Pos) {
 		}
 		c.a.ctaPairs = append(c.a.ctaPairs, ctaPair{fn: c.declName(), src: cand.src, condPos: cand.pos, actClass: class, actCallee: callee, actPos: pos})
 	}
+}
+
+// ---------------------------------------------------------------- write after publish
+
+type pubInfo struct {
+	field string
+	seq   int
+	pos   string
+}
+
+// rootVar returns the local variable a written expression goes through
+// (v.f = …, *v = …, v.f[i] = …), if the write is to what v points to.
+func (c *fctx) rootVar(e ast.Expr) (obj types.Object, deep bool) {
+	for {
+		switch x := ast.Unparen(e).(type) {
+		case *ast.SelectorExpr:
+			e, deep = x.X, true
+		case *ast.IndexExpr:
+			e, deep = x.X, true
+		case *ast.StarExpr:
+			e, deep = x.X, true
+		case *ast.Ident:
+			return c.objOf(x), deep
+		default:
+			return nil, false
+		}
+	}
+}
+
+// notePublish records `x.guarded = v` / `x.guarded = &v` made under the guard.
+func (c *fctx) notePublish(lhs, rhs ast.Expr) {
+	if c.a.collecting {
+		return
+	}
+	rhs = ast.Unparen(rhs)
+	if u, ok := rhs.(*ast.UnaryExpr); ok && u.Op == token.AND {
+		rhs = ast.Unparen(u.X)
+	}
+	id, ok := rhs.(*ast.Ident)
+	if !ok {
+		return
+	}
+	obj := c.objOf(id)
+	v, isVar := obj.(*types.Var)
+	if !isVar || v.IsField() || (v.Parent() != nil && v.Pkg() != nil && v.Parent() == v.Pkg().Scope()) {
+		return
+	}
+	pr := c.resolve(lhs)
+	if pr == nil || len(pr.segs) == 0 {
+		return
+	}
+	root, base, path := c.a.rootOf(pr)
+	if root == "" || c.a.rootCfg[root] == nil {
+		return
+	}
+	prefix, guard, _, ok := c.a.classify(root, path)
+	if !ok || guard == "" {
+		return
+	}
+	for _, l := range c.must {
+		if l.root == root && l.base == base && l.path == guard && !l.outer {
+			c.published[obj] = pubInfo{field: root + ":" + prefix, seq: l.seq, pos: c.a.pos(lhs.Pos())}
+		}
+	}
+}
+
+// writeThroughPublished notes a write through a published variable made after
+// the hold under which it was published has ended.
+func (c *fctx) writeThroughPublished(e ast.Expr) {
+	if c.a.collecting || len(c.published) == 0 {
+		return
+	}
+	obj, deep := c.rootVar(e)
+	if obj == nil || !deep {
+		return
+	}
+	pi, ok := c.published[obj]
+	if !ok {
+		return
+	}
+	for _, l := range c.must {
+		if l.seq == pi.seq {
+			return // still inside the publishing hold
+		}
+	}
+	c.a.pubRows = append(c.a.pubRows, pubRow{fn: c.declName(), field: pi.field, varName: obj.Name(), pubPos: pi.pos, writePos: c.a.pos(e.Pos())})
 }
